@@ -1,6 +1,7 @@
 import NgoVerif.Model.Projection
 import NgoVerif.Meta.Fold
 import NgoVerif.Props.C07
+import NgoVerif.Proofs.C16sem
 /-!
 # C16 — projection: a split rule derives exactly what the unsplit rule derived
 
@@ -168,5 +169,38 @@ theorem C16_aggregates_whole (new rest : List BLit) (head : Head) (body : List B
 the real code returned a split and were reproduced by the model (evidence key `good_split:split`); e.g. the
 maintainers' test input `p(A,D) :- q(A,B,C), r(A,D), t(E), not s(B,E).` splits off `q, t, not s` over `A`.  (The
 kernel cannot evaluate `goodSplit` by `decide` because the binding fixpoints recurse on fuel over strings.) -/
+
+
+/-! ## the split, from syntax to stable models (here-and-there semantics of the typed AST, `Sem/*`) -/
+
+open Proofs.C16sem in
+/-- **Soundness, end to end.**  `head :- body.` (body = `new` ∪ `rest`) versus `aux(V̄) :- new.` + `head :- rest, aux(V̄).`
+in *any* ground context `P0` that does not mention the auxiliary predicate: every stable model of the original program
+extends — by exactly the auxiliary atoms whose moved part holds — to a stable model of the split program.  The
+hypotheses (`Cond`) are syntactic: the two parts cover the body, **every variable of the moved part that also occurs in
+the rest or in the head is among `V̄`**, the auxiliary name occurs in neither part; plus the semantic parameters'
+sanity (a plain atom head holds iff its atom is in `H`, the head depends only on its variables and not on aux atoms,
+aggregates are persistent).  `G` (which variables are global) is the same for the three rules: no variable changes its
+scope — what `good_split` checks with `local_new ∩ global_old = ∅`. -/
+theorem C16_split_sound (P : Sem.PParams) (G : String → Prop) (S : Syn) (P0 : HT.Prog Sem.GAtom) (hc : Cond P G S)
+    (hP0 : ∀ r, P0 r → HT.Indep (splitData P G S P0).A r) (T : Sem.Interp)
+    (hT : HT.Stable (HT.Union P0 (instances P G S.head S.body)) T) :
+    HT.Stable (splitProg P G S P0) (extend P G S T) :=
+  split_sound P G S P0 hc hP0 T hT
+
+open Proofs.C16sem in
+/-- **Completeness, end to end**: every stable model of the split program is the extension of a stable model of the
+original program (so the correspondence is one-to-one and restricted to the source vocabulary nothing changes). -/
+theorem C16_split_complete (P : Sem.PParams) (G : String → Prop) (S : Syn) (P0 : HT.Prog Sem.GAtom) (hc : Cond P G S)
+    (hP0 : ∀ r, P0 r → HT.Indep (splitData P G S P0).A r) (T' : Sem.Interp)
+    (hT' : HT.Stable (splitProg P G S P0) T') :
+    ∃ T, HT.Stable (HT.Union P0 (instances P G S.head S.body)) T ∧ ∀ a, T' a ↔ extend P G S T a :=
+  split_complete P G S P0 hc hP0 T' hT'
+
+/-- the ground-level schema with its exact side condition `Glue` (environments can be re-assembled across the
+interface), of which the two theorems above are the syntactic instance -/
+theorem C16_schema_sound {α E K : Type} (S : HT.SplitData α E K) (h : S.WF) (hg : S.Glue) (T : HT.Interp α)
+    (hT : HT.Stable S.orig T) : HT.Stable (HT.Union S.folded (S.defs h).rules) (HT.ext (S.defs h) T) :=
+  S.split_sound h hg T hT
 
 end NgoVerif
